@@ -301,9 +301,9 @@ func (f *ObjectLayoutFixer) fixLayout(mapping LayoutMapping, value octosql.Value
 		}
 		return octosql.NewList(out)
 	case octosql.TypeIDTuple:
-		out := make([]octosql.Value, len(value.Tuple))
-		for i := range out {
-			out[i] = f.fixLayout(mapping.Tuple.ElementMapping[i], value.List[i])
+		out := make([]octosql.Value, len(mapping.Tuple.ElementMapping))
+		for i := range value.Tuple {
+			out[i] = f.fixLayout(mapping.Tuple.ElementMapping[i], value.Tuple[i])
 		}
 		return octosql.NewTuple(out)
 	default:
@@ -396,6 +396,10 @@ func calculateMapping(targetType, sourceType octosql.Type) LayoutMapping {
 	case octosql.TypeIDTuple:
 		mappings := make([]LayoutMapping, len(targetType.Tuple.Elements))
 		for i := range mappings {
+			if i >= len(sourceType.Tuple.Elements) {
+				// The target tuple type is padded with NULLs for shorter alternatives.
+				break
+			}
 			mappings[i] = calculateMapping(targetType.Tuple.Elements[i], sourceType.Tuple.Elements[i])
 		}
 		return LayoutMapping{
